@@ -32,6 +32,7 @@ type Case struct {
 	Yield   []int   `json:"yield"`   // per goroutine (readers first)
 	Procs   int     `json:"procs"`
 	Repeat  int     `json:"repeat"`
+	Pooled  bool    `json:"pooled,omitempty"`  // the shared buffer is obtained from a pool allocator instead of Alloc
 	Partial int     `json:"partial,omitempty"` // single samples appended to the shared buffer before the goroutines start (a partial last frame), < C
 }
 
@@ -241,7 +242,16 @@ func spareFrames(c *Case) int { return 2 + c.F%3 }
 
 func fill(c *Case) kit.AnyBuf {
 	spare := spareFrames(c)
-	b := kit.AllocAny(c.T, signal.Allocator{Channels: c.C, Length: c.F, Capacity: c.F + spare})
+	al := signal.Allocator{Channels: c.C, Length: c.F, Capacity: c.F + spare}
+	b := kit.AllocAny(c.T, al)
+	if c.Pooled {
+		// the shared buffer comes out of a pool (after one round trip through it)
+		pool := kit.NewAnyPool(c.T, al)
+		first := pool.Get()
+		first.AppendSample(kit.IV(3))
+		pool.Put(first)
+		b = pool.Get()
+	}
 	for i := 0; i < b.Len(); i++ {
 		b.Set(i, kit.IV(int64(1+i%100)))
 	}
@@ -351,6 +361,9 @@ func Check(c *Case) (res kit.Result) {
 	}
 	if R >= 2 {
 		res.Class("concurrentReaders")
+		if c.Pooled {
+			res.Class("sharedBufferFromAPool")
+		}
 	}
 	if W >= 2 {
 		res.Class("concurrentDisjointWriters")
@@ -362,6 +375,9 @@ func FP(c *Case) uint64 {
 	h := kit.NewHasher()
 	h.Str(c.T)
 	h.Ints([]int{c.C, c.F, c.RO, c.Procs, c.Repeat, c.Partial})
+	if c.Pooled {
+		h.Int(1)
+	}
 	h.Ints(c.Bounds)
 	h.Ints(c.Yield)
 	for _, s := range c.Readers {
@@ -430,6 +446,7 @@ func Gen(t *rapid.T) *Case {
 		c.Yield = append(c.Yield, rapid.IntRange(0, 255).Draw(t, "yield"))
 	}
 	c.Procs = rapid.SampledFrom([]int{1, 2, 4, 8, 16}).Draw(t, "procs")
+	c.Pooled = rapid.IntRange(0, 2).Draw(t, "pooled") == 0
 	c.Repeat = 1
 	if c.C >= 2 && rapid.IntRange(0, 2).Draw(t, "partialSel") == 0 {
 		c.Partial = rapid.IntRange(1, c.C-1).Draw(t, "partial")
